@@ -120,6 +120,16 @@ static std::string step(const Toks& t)
 		parser->parse(" ");
 		return show(parser->value());
 	}
+	if (op == "nest" && t.size() == 5) {
+		// text = open^n mid close^n
+		std::string a = unhex(t[2]), m = unhex(t[3]), b = unhex(t[4]), d;
+		long long n = num(t[1]);
+		for (long long i = 0; i < n; i++) d += a;
+		d += m;
+		for (long long i = 0; i < n; i++) d += b;
+		Exact e(d);
+		return show(Json::decode(String(e.p, (int)e.n)));
+	}
 	if (op == "reset" && t.size() == 1) {
 		reset();
 		return "ok";
